@@ -118,12 +118,13 @@ CHECKS = {
                  "structural tokens and 1000-entry batch boundaries otherwise) and injected read errors. jsonsim: one evaluation = an add/get "
                  "history on the JSON store, save/load round trip, then a second SaveDatabase expanded into every file-system operation "
                  "boundary x crash modes (or one injected ENOSPC/EIO). jsonsched: 2-3 writer tasks (single and batch adds with unique or auto IDs) and "
-                 "0-2 reader tasks interleaved by the tape-driven scheduler at every lock operation of the JSON store; every added signature must be fetched back with its own content. Non-trivial = at least 2 entries (migrate) / crash enumeration or a fired fault (json); "
+                 "0-2 reader tasks interleaved by the tape-driven scheduler at every lock operation of the JSON store; every added signature must be fetched back with its own content. migratecli: a history of 2-5 `sfw migrate` invocations (cli.RunMigrate, real temp directory) against ONE destination database with well-formed, truncated, non-JSON, resubmitted-unchanged or repaired-in-place source files; every invocation that reports success must have stored every signature of its source. Non-trivial = at least 2 entries (migrate) / crash enumeration or a fired fault (json); "
                  "distinct = distinct input encodings / operation traces."),
         "jobs": [
             {"engine": "storesim-migrate", "bin": "pebbledb", "test": "TestVerifC18Migrate", "cfg": {}, "weight": 3},
             {"engine": "jsonsim", "bin": "jsondb", "test": "TestVerifC18JSON", "cfg": {}, "weight": 1},
             {"engine": "jsonsched", "bin": "jsondb", "test": "TestVerifC18JSONSched", "cfg": {}, "weight": 1},
+            {"engine": "migratecli", "bin": "cli", "test": "TestVerifC18CLI", "cfg": {}, "weight": 1, "max_workers": 2},
         ],
         "assumptions": ["the old JSON file is durable (its directory synced) before the save that is crashed",
                         "durability of the rename itself is not demanded (C18 speaks of atomic replacement)",
